@@ -17,6 +17,7 @@ import Driver.SanFilter
 import Driver.Sys
 import Driver.Pop3Conc
 import Driver.Ids
+import Driver.SmtpConc
 open Driver
 
 /-
@@ -43,6 +44,7 @@ def main (args : List String) : IO UInt32 := do
   | ["sys"] => runLoop Driver.SysMode.step Driver.SysMode.init
   | ["popconc"] => runLoop Driver.Pop3ConcMode.step Driver.Pop3ConcMode.init
   | ["ids"] => runLoop Driver.IdsMode.step ()
+  | ["smtpconc"] => runLoop Driver.SmtpConcMode.step Driver.SmtpConcMode.init
   | ["sanf"] => runLoop (fun (_ : Unit) toks => ((), Driver.SanFilter.handler toks)) ()
   | _ => IO.eprintln s!"unknown mode {args}"; return 2
   return 0
